@@ -8,6 +8,8 @@ silently is a violation, and so is a different exception class where one is docu
 
 from __future__ import annotations
 
+import json
+
 ID = "C13"
 KINDS = ["foreign-wire", "foreign-wire-cfg", "static-as-value", "funcdefn-as-value", "int-arg",
          "call-non-function", "load-non-function", "incomplete-op-serialize", "case-outputs-disagree",
@@ -48,7 +50,7 @@ class Verdict(Exception):
         self.ok, self.expected, self.observed, self.where = ok, expected, observed, where
 
 
-LAST = {"verdict": None, "stop": None}
+LAST = {"verdict": None, "stop": None, "skip": False}
 
 
 def expect(fn, exc, where):
@@ -269,7 +271,7 @@ def make_interp(kind, site):
                     self.skipped = "single-case conditional"
                 return False
             self.injected = True
-            extra = case_b.load(val.Tuple(val.TRUE, val.Unit))
+            extra = case_b.load(val.Tuple(val.TRUE, val.Unit, val.TRUE, val.Unit, val.TRUE))
             variant = sum(map(ord, st["id"])) % 3 if outs else 0
             # longer row / shorter row / same length but another type in the last position
             bad_outs = [[*outs, extra], outs[:-1], [*outs[:-1], extra]][variant]
@@ -325,8 +327,14 @@ def make_interp(kind, site):
         def inj_mismatched_exit(self, where, st, cfg=None, built=None, **kw):
             if where != "cfg":
                 return False
-            rows = {b["name"]: b["ins"] for b in st["blocks"]}
-            rows["exit"] = st["out_tys"]
+            from vf.gen.types import wire_ty
+            from vf.oracles import wire as _w
+
+            def crow(row):   # descriptors may differ while denoting the same type (unit vs empty tuple)
+                return json.dumps([_w.canon(wire_ty(t)) for t in row], sort_keys=True)
+
+            rows = {b["name"]: crow(b["ins"]) for b in st["blocks"]}
+            rows["exit"] = crow(st["out_tys"])
             outs = [(b["name"], i, rows[s]) for b in st["blocks"] for i, s in enumerate(b["succs"])]
             pair = None
             for a in outs:
@@ -355,7 +363,7 @@ def make_interp(kind, site):
                 self.skipped = "function without declared outputs"
                 return False
             self.injected = True
-            extra = fb.load(val.Tuple(val.TRUE, val.Unit))
+            extra = fb.load(val.Tuple(val.TRUE, val.Unit, val.TRUE, val.Unit, val.TRUE))
             variant = sum(map(ord, st["id"])) % 3 if outs else 0
             bad = [[*outs, extra], outs[:-1], [*outs[:-1], extra]][variant]
             expect(lambda: fb.set_outputs(*bad), ValueError, "Function.set_outputs")
@@ -408,7 +416,9 @@ def make_interp(kind, site):
 
 
 class _Skip(Exception):
-    pass
+    def __init__(self, *a):
+        super().__init__(*a)
+        LAST["skip"] = True
 
 
 def _is(h, n, classes):
@@ -427,6 +437,7 @@ def run_case(ctx, case, stratum="inject"):
     it = make_interp(kind, site)
     expected, observed, where, ok = None, None, None, None
     LAST["verdict"] = LAST["stop"] = None
+    LAST["skip"] = False
     try:
         try:
             it.run(prog)
@@ -438,6 +449,8 @@ def run_case(ctx, case, stratum="inject"):
                 raise LAST["verdict"] from None
             if LAST["stop"] is not None:
                 raise LAST["stop"] from None
+            if LAST["skip"]:
+                raise _Skip() from None
             raise
         if not it.injected:
             ctx.count("skipped:" + (it.skipped or "site not reached"))
